@@ -56,6 +56,8 @@ pub enum Error {
     UnexpectedChar(String, usize),
     #[error("comma required at {0}")]
     CommaRequired(usize),
+    #[error("incomplete digit group before {0}")]
+    IncompleteGroup(usize),
     #[error("unexpressible decimal {0}")]
     InvalidDecimal(#[from] rust_decimal::Error),
 }
@@ -164,6 +166,9 @@ impl FromStr for PrettyDecimal {
                     return Err(Error::UnexpectedChar(try_find_char(s, i, c), i));
                 }
             }
+        }
+        if comma_pos.is_some_and(|cp| cp != s.len()) {
+            return Err(Error::IncompleteGroup(s.len()));
         }
         let value = Decimal::try_from_i128_with_scale(sign * mantissa, scale.unwrap_or(0))?;
         Ok(Self { format, value })
